@@ -15,11 +15,14 @@ pub struct SweepOpts {
     pub trivial_classes: Vec<u64>,
     pub exhaustive: bool,
     pub chunk: u64,
+    /// for statements that promise termination ("never a hang"): a case still running after this many seconds is
+    /// reported as a violation of kind `hang` by the watchdog (which then ends the process)
+    pub deadline_secs: Option<u64>,
 }
 
 impl Default for SweepOpts {
     fn default() -> Self {
-        SweepOpts { trivial_classes: vec![], exhaustive: true, chunk: 64 }
+        SweepOpts { trivial_classes: vec![], exhaustive: true, chunk: 64, deadline_secs: None }
     }
 }
 
@@ -52,10 +55,12 @@ pub fn sweep_range<C: Serialize>(
                 if i == 0 || i == n / 2 || i == n - 1 {
                     samples.lock().unwrap().push(json!({"index": i, "case": serde_json::to_value(&case).unwrap()}));
                 }
+                let guard = opts.deadline_secs.map(|d| util::watch_enter(family, serde_json::to_value(&case).unwrap(), std::time::Duration::from_secs(d)));
                 let res = match util::catch(|| run(&case)) {
                     Ok(r) => r,
                     Err(p) => Err(Fail::from_panic(&p)),
                 };
+                drop(guard);
                 local_done += 1;
                 match res {
                     Ok(class) => {
